@@ -19,9 +19,30 @@ Proof.
   - exists [], []. reflexivity.
   - destruct (bytes_eqb (t_group n) (t_group m)); eauto.
 Qed.
-Lemma reg_loop_flag fs t rest : reg_loop_sel fs true (t :: rest) = EGroupStart t :: reg_loop_sel fs false (t :: rest).
+(* ---- the run options: setRunIgnored keeps group, name, location and body; doing it twice is doing it once *)
+Lemma arm_group ri t : t_group (arm ri t) = t_group t. Proof. destruct ri; reflexivity. Qed.
+Lemma arm_name ri t : t_name (arm ri t) = t_name t. Proof. destruct ri; reflexivity. Qed.
+Lemma arm_idem ri t : arm ri (arm ri t) = arm ri t. Proof. destruct ri; reflexivity. Qed.
+Lemma arm_false_map ts : map (arm false) ts = ts.
+Proof. induction ts as [|t ts IH]; [reflexivity|]. cbn [map arm]. rewrite IH. reflexivity. Qed.
+Lemma arm_idem_map ri ts : map (arm ri) (map (arm ri) ts) = map (arm ri) ts.
+Proof. rewrite map_map. apply map_ext. intro t. apply arm_idem. Qed.
+Lemma selected_arm ri fs t : selected fs (arm ri t) = selected fs t.
+Proof. unfold selected. rewrite arm_name. reflexivity. Qed.
+Lemma end_of_group_arm ri t rest : end_of_group t (map (arm ri) rest) = end_of_group t rest.
+Proof. destruct rest as [|n rest]; [reflexivity|]. cbn [map end_of_group]. rewrite arm_group. reflexivity. Qed.
+
+(* the loop that arms each shell at the top of its iteration reports what the plain loop reports on shells armed beforehand:
+   nothing is told to the output about a shell before its own iteration *)
+Lemma reg_loop_arm ri fs ts : forall gs, reg_loop_sel ri fs gs ts = reg_loop_sel false fs gs (map (arm ri) ts).
+Proof.
+  induction ts as [|t rest IH]; intro gs; [reflexivity|].
+  cbn [map reg_loop_sel]. cbn [arm]. rewrite end_of_group_arm, !IH. reflexivity.
+Qed.
+
+Lemma reg_loop_flag fs t rest : reg_loop_sel false fs true (t :: rest) = EGroupStart t :: reg_loop_sel false fs false (t :: rest).
 Proof. reflexivity. Qed.
-Lemma reg_loop_segments fs ts : reg_loop_sel fs true ts = flat_map (seg_events fs) (segments ts).
+Lemma reg_loop_segments_plain fs ts : reg_loop_sel false fs true ts = flat_map (seg_events fs) (segments ts).
 Proof.
   induction ts as [|t rest IH]; [reflexivity|].
   destruct rest as [|n rest'].
@@ -29,13 +50,49 @@ Proof.
   - destruct (segments_head n rest') as [g [gs Eg]].
     remember (n :: rest') as r eqn:Er.
     cbn [segments]. rewrite Eg in *.
-    assert (IH' : reg_loop_sel fs false r = flat_map (sel_events fs) (n :: g) ++ [EGroupEnd] ++ flat_map (seg_events fs) gs).
-    { rewrite Er in *. rewrite reg_loop_flag in IH. remember (reg_loop_sel fs false (n :: rest')) as X eqn:EX.
+    assert (IH' : reg_loop_sel false fs false r = flat_map (sel_events fs) (n :: g) ++ [EGroupEnd] ++ flat_map (seg_events fs) gs).
+    { rewrite Er in *. rewrite reg_loop_flag in IH. remember (reg_loop_sel false fs false (n :: rest')) as X eqn:EX.
       cbn [flat_map seg_events app] in IH. injection IH as IH. rewrite IH. cbn [flat_map]. rewrite <- !app_assoc. reflexivity. }
-    cbn [reg_loop_sel]. replace (end_of_group t r) with (negb (bytes_eqb (t_group t) (t_group n))) by (rewrite Er; reflexivity).
+    cbn [reg_loop_sel arm]. replace (end_of_group t r) with (negb (bytes_eqb (t_group t) (t_group n))) by (rewrite Er; reflexivity).
     destruct (bytes_eqb (t_group t) (t_group n)); cbn [negb].
     + rewrite IH'. cbn [flat_map seg_events app]. rewrite <- !app_assoc. reflexivity.
     + rewrite IH. cbn [flat_map seg_events app]. rewrite !app_nil_r, <- !app_assoc. reflexivity.
+Qed.
+Lemma reg_loop_segments ri fs ts : events_sel ri fs ts = flat_map (seg_events fs) (segments (map (arm ri) ts)).
+Proof. unfold events_sel. rewrite reg_loop_arm. apply reg_loop_segments_plain. Qed.
+
+(* several passes: every pass reports what the first one reports (the shells stay armed) *)
+Fixpoint times {A} (n : nat) (l : list A) : list A := match n with O => [] | S k => l ++ times k l end.
+Lemma times_concat {A} n (l : list A) : times n l = concat (repeat l n).
+Proof. induction n as [|n IH]; [reflexivity|]. cbn [times repeat concat]. rewrite IH. reflexivity. Qed.
+Lemma passes_events_times ri fs n : forall ts, passes_events ri fs n ts = times n (events_sel false fs (map (arm ri) ts)).
+Proof.
+  induction n as [|n IH]; intro ts; [reflexivity|].
+  cbn [passes_events times]. rewrite IH, arm_idem_map. unfold events_sel at 1. rewrite reg_loop_arm. reflexivity.
+Qed.
+Lemma passes_exec_times ri fs n : forall ts, passes_exec ri fs n ts = times n (map (exec_count fs) (map (arm ri) ts)).
+Proof.
+  induction n as [|n IH]; intro ts; [reflexivity|].
+  cbn [passes_exec times]. rewrite IH, arm_idem_map. unfold pass_exec. rewrite map_map. reflexivity.
+Qed.
+Lemma flat_map_times {A B} (f : A -> list B) n l : flat_map f (times n l) = times n (flat_map f l).
+Proof. induction n as [|n IH]; [reflexivity|]. cbn [times]. rewrite flat_map_app, IH. reflexivity. Qed.
+
+(* a map that keeps the group names keeps the segments *)
+Lemma segments_map (f : test -> test) : (forall t, t_group (f t) = t_group t) -> forall ts, segments (map f ts) = map (map f) (segments ts).
+Proof.
+  intros Hf ts. induction ts as [|t rest IH]; [reflexivity|].
+  cbn [map segments]. rewrite IH. destruct (segments rest) as [|[|n g] gs]; [reflexivity | reflexivity |].
+  cbn [map]. rewrite !Hf. destruct (bytes_eqb (t_group t) (t_group n)); reflexivity.
+Qed.
+Lemma concat_segments ts : concat (segments ts) = ts.
+Proof.
+  induction ts as [|t rest IH]; [reflexivity|].
+  destruct rest as [|n rest']; [reflexivity|].
+  destruct (segments_head n rest') as [g [gs Eg]].
+  remember (n :: rest') as r eqn:Er.
+  cbn [segments]. rewrite Eg in *.
+  destruct (bytes_eqb (t_group t) (t_group n)); cbn [concat app] in *; rewrite IH; reflexivity.
 Qed.
 
 (* every segment is non-empty; a property of all tests holds of all tests of every segment *)
@@ -211,42 +268,87 @@ Proof. unfold erase, named, mk_named. cbn [pm_name pm_attrs map fst snd flat_map
 Lemma erase_finished t :
   erase (finished_pmsg t) = {| m_name := L_testFinished; m_attrs := [(L_name, t_name t); (L_duration, dec (if t_ignored t then 0 else dur))] |}.
 Proof. unfold erase, finished_pmsg. cbn [pm_name pm_attrs map fst snd flat_map seg_dec]. rewrite !app_nil_r. reflexivity. Qed.
-Lemma msgs_test t : msgs_of_items (test_items t) = test_msgs dur t.
+(* the writer is told about shells as the registry armed them: for such a shell "is run" is "is not ignored" *)
+Lemma msgs_test t : msgs_of_items (test_items t) = test_msgs dur false t.
 Proof.
-  unfold test_items, test_msgs, test_failures. cbn [msgs_of_items]. rewrite !msgs_of_items_app.
+  unfold test_items, test_msgs, test_failures, runs. cbn [msgs_of_items]. rewrite !msgs_of_items_app.
   cbn [msgs_of_items]. rewrite erase_named, erase_finished.
-  destruct (t_ignored t); cbn [msgs_of_items map app]; rewrite ?erase_named, ?msgs_body; reflexivity.
+  destruct (t_ignored t); cbn [msgs_of_items map app negb orb]; rewrite ?erase_named, ?msgs_body; reflexivity.
 Qed.
-Lemma msgs_tests g : msgs_of_items (flat_map test_items g) = flat_map (test_msgs dur) g.
+Lemma msgs_tests g : msgs_of_items (flat_map test_items g) = flat_map (test_msgs dur false) g.
 Proof. induction g as [|t g IH]; [reflexivity|]. cbn [flat_map]. rewrite msgs_of_items_app, msgs_test, IH. reflexivity. Qed.
-Lemma msgs_seg g : msgs_of_items (seg_items g) = suite_msgs dur fs g.
+Lemma msgs_seg g : msgs_of_items (seg_items g) = suite_msgs dur false fs g.
 Proof. unfold seg_items, suite_msgs. cbn [msgs_of_items]. rewrite msgs_of_items_app, msgs_tests. cbn [msgs_of_items]. rewrite !erase_named. reflexivity. Qed.
-Lemma msgs_segs gs : msgs_of_items (flat_map seg_items gs) = flat_map (suite_msgs dur fs) gs.
+Lemma msgs_segs gs : msgs_of_items (flat_map seg_items gs) = flat_map (suite_msgs dur false fs) gs.
 Proof. induction gs as [|g gs IH]; [reflexivity|]. cbn [flat_map]. rewrite msgs_of_items_app, msgs_seg, IH. reflexivity. Qed.
 
-(* ---- the stream of a whole run *)
-Lemma run_items ts : tc_items Esc true dur tc_init (events_sel fs ts) = flat_map seg_items (segments ts).
+(* ---- the messages of armed shells, read against the registered tests: flagged iff ignored and not run *)
+Lemma failure_msg_unignore t f : failure_msg (unignore t) f = failure_msg t f.
+Proof. destruct f as [[file line] msg]. reflexivity. Qed.
+Lemma test_msgs_arm ri t : test_msgs dur false (arm ri t) = test_msgs dur ri t.
 Proof.
-  unfold events_sel. rewrite reg_loop_segments.
+  destruct ri; [|reflexivity].
+  unfold test_msgs, test_failures, runs. cbn [arm unignore t_ignored t_name t_body negb orb]. rewrite orb_true_r.
+  rewrite (map_ext _ _ (failure_msg_unignore t)). reflexivity.
+Qed.
+Lemma filter_selected_arm ri g : filter (selected fs) (map (arm ri) g) = map (arm ri) (filter (selected fs) g).
+Proof.
+  induction g as [|t g IH]; [reflexivity|]. cbn [map filter]. rewrite selected_arm, IH. destruct (selected fs t); reflexivity.
+Qed.
+Lemma group_name_arm ri g : group_name (map (arm ri) g) = group_name g.
+Proof. destruct g as [|t g]; [reflexivity|]. cbn [map group_name]. apply arm_group. Qed.
+Lemma suite_msgs_arm ri g : suite_msgs dur false fs (map (arm ri) g) = suite_msgs dur ri fs g.
+Proof.
+  unfold suite_msgs. rewrite group_name_arm, filter_selected_arm. do 2 f_equal.
+  induction (filter (selected fs) g) as [|t l IH]; [reflexivity|]. cbn [map flat_map]. rewrite test_msgs_arm, IH. reflexivity.
+Qed.
+Lemma suites_msgs_arm ri ts :
+  flat_map (suite_msgs dur false fs) (segments (map (arm ri) ts)) = flat_map (suite_msgs dur ri fs) (segments ts).
+Proof.
+  rewrite (segments_map (arm ri) (arm_group ri)).
+  induction (segments ts) as [|g gs IH]; [reflexivity|]. cbn [map flat_map]. rewrite suite_msgs_arm, IH. reflexivity.
+Qed.
+
+(* ---- the stream of a whole run *)
+Lemma pass_items ts st rest : exists st',
+  tc_items Esc true dur st (events_sel false fs ts ++ rest) = flat_map seg_items (segments ts) ++ tc_items Esc true dur st' rest.
+Proof.
+  unfold events_sel. rewrite reg_loop_segments_plain.
   assert (Hne : Forall (fun g : list test => g <> []) (segments ts)).
   { assert (Ht : forallb (fun _ : test => true) ts = true) by (clear; induction ts; cbn; auto).
     pose proof (segments_forall (fun _ => true) ts Ht) as H. eapply Forall_impl; [|exact H]. intros g [Hg _]. exact Hg. }
-  destruct (items_segs (segments ts) tc_init [] Hne) as [st' E].
-  rewrite !app_nil_r in E. cbn [tc_items] in E. rewrite ?app_nil_r in E. exact E.
+  apply items_segs. exact Hne.
 Qed.
-
-Lemma stream ts trailer : forallb noprint ts = true -> no_hash trailer = true ->
-  tc_parse (render_tc dur fs ts ++ trailer) = Some (messages_of dur fs ts).
+Lemma times_items ts n : forall st, tc_items Esc true dur st (times n (events_sel false fs ts)) = times n (flat_map seg_items (segments ts)).
 Proof.
-  intros Hp Ht. unfold render_tc, render_with, messages_of. rewrite run_items.
-  rewrite parse_items; [|apply segs_items_ok, segments_forall, Hp|exact Ht].
-  rewrite msgs_segs. reflexivity.
+  induction n as [|n IH]; intro st; [reflexivity|]. cbn [times].
+  destruct (pass_items ts st (times n (events_sel false fs ts))) as [st' E]. rewrite E, IH. reflexivity.
+Qed.
+Lemma run_items ri n ts :
+  tc_items Esc true dur tc_init (passes_events ri fs n ts) = times n (flat_map seg_items (segments (map (arm ri) ts))).
+Proof. rewrite passes_events_times. apply times_items. Qed.
+
+Lemma noprint_arm ri t : noprint (arm ri t) = noprint t. Proof. destruct ri; reflexivity. Qed.
+Lemma times_ok n l : forallb item_ok l = true -> forallb item_ok (times n l) = true.
+Proof. intro H. induction n as [|n IH]; [reflexivity|]. cbn [times]. rewrite forallb_app, H, IH. reflexivity. Qed.
+Lemma msgs_of_items_times n l : msgs_of_items (times n l) = times n (msgs_of_items l).
+Proof. induction n as [|n IH]; [reflexivity|]. cbn [times]. rewrite msgs_of_items_app, IH. reflexivity. Qed.
+
+Lemma stream ri n ts trailer : forallb noprint ts = true -> no_hash trailer = true ->
+  tc_parse (render_tc dur ri n fs ts ++ trailer) = Some (messages_of dur ri n fs ts).
+Proof.
+  intros Hp Ht. unfold render_tc, render_with, messages_of, pass_groups. rewrite run_items.
+  rewrite parse_items; [| |exact Ht].
+  - rewrite msgs_of_items_times, msgs_segs, suites_msgs_arm, <- times_concat, flat_map_times. reflexivity.
+  - apply times_ok, segs_items_ok, segments_forall.
+    rewrite forallb_forall in *. intros t' Hin. apply in_map_iff in Hin. destruct Hin as [t [<- Hin]]. rewrite noprint_arm. apply Hp, Hin.
 Qed.
 End WriterFacts.
 
 (* ================= the messages of a run against the property ================= *)
 Section SpecFacts.
 Variable dur : N.
+Variable ri : bool.
 Variable fs : list bytes.
 
 (* ---- balance *)
@@ -256,31 +358,33 @@ Proof.
   induction fl as [|[[f l] m] fl IH]; intro r; [reflexivity|].
   cbn [map app]. unfold failure_msg at 1. cbn. rewrite bytes_eqb_refl. cbn. apply IH.
 Qed.
-Lemma bal_test s t r : balanced_go (Some s) None (test_msgs dur t ++ r) = balanced_go (Some s) None r.
+Lemma bal_test s t r : balanced_go (Some s) None (test_msgs dur ri t ++ r) = balanced_go (Some s) None r.
 Proof.
   unfold test_msgs. cbn [app]. 
   change (balanced_go (Some s) None (mk_named L_testStarted (t_name t) :: ?x)) with (balanced_go (Some s) (Some (t_name t)) x).
   rewrite <- !app_assoc.
-  assert (Hi : forall x, balanced_go (Some s) (Some (t_name t)) ((if t_ignored t then [mk_named L_testIgnored (t_name t)] else []) ++ x)
+  assert (Hi : forall x, balanced_go (Some s) (Some (t_name t)) ((if runs ri t then [] else [mk_named L_testIgnored (t_name t)]) ++ x)
                          = balanced_go (Some s) (Some (t_name t)) x).
-  { intro x. destruct (t_ignored t); [|reflexivity]. cbn. rewrite bytes_eqb_refl. reflexivity. }
+  { intro x. destruct (runs ri t); [reflexivity|]. cbn. rewrite bytes_eqb_refl. reflexivity. }
   rewrite Hi, bal_failures. cbn. rewrite bytes_eqb_refl. reflexivity.
 Qed.
-Lemma bal_tests s g : forall r, balanced_go (Some s) None (flat_map (test_msgs dur) g ++ r) = balanced_go (Some s) None r.
+Lemma bal_tests s g : forall r, balanced_go (Some s) None (flat_map (test_msgs dur ri) g ++ r) = balanced_go (Some s) None r.
 Proof.
   induction g as [|t g IH]; intro r; [reflexivity|]. cbn [flat_map]. rewrite <- app_assoc, bal_test. apply IH.
 Qed.
-Lemma bal_suite g r : balanced_go None None (suite_msgs dur fs g ++ r) = balanced_go None None r.
+Lemma bal_suite g r : balanced_go None None (suite_msgs dur ri fs g ++ r) = balanced_go None None r.
 Proof.
   unfold suite_msgs. cbn [app].
   change (balanced_go None None (mk_named L_testSuiteStarted (group_name g) :: ?x)) with (balanced_go (Some (group_name g)) None x).
   rewrite <- app_assoc, bal_tests. cbn. rewrite bytes_eqb_refl. reflexivity.
 Qed.
-Lemma balanced_messages ts : balanced (messages_of dur fs ts) = true.
+Lemma balanced_suites gs : balanced (flat_map (suite_msgs dur ri fs) gs) = true.
 Proof.
-  unfold balanced, messages_of. induction (segments ts) as [|g gs IH]; [reflexivity|].
+  unfold balanced. induction gs as [|g gs IH]; [reflexivity|].
   cbn [flat_map]. rewrite bal_suite. exact IH.
 Qed.
+Lemma balanced_messages n ts : balanced (messages_of dur ri n fs ts) = true.
+Proof. apply balanced_suites. Qed.
 
 (* ---- faithfulness *)
 Lemma ends_with_app p s : ends_with (p ++ s) s = true.
@@ -315,39 +419,77 @@ Proof.
 Qed.
 Lemma attr_is_named k n : attr_is L_name (mk_named k n) n = true.
 Proof. unfold attr_is, get_attr, mk_named. cbn [m_attrs find fst snd]. change (bytes_eqb L_name L_name) with true. cbn. apply bytes_eqb_refl. Qed.
-Lemma take_test_msgs t r : take_test t (test_msgs dur t ++ r) = Some r.
+
+(* a testFailed / testFinished message is not the ignored flag *)
+Lemma is_flag_failed t t' f : is_flag t (failure_msg t' f) = false.
+Proof. destruct f as [[file line] msg]. reflexivity. Qed.
+Lemma is_flag_finished t a : is_flag t {| m_name := L_testFinished; m_attrs := a |} = false.
+Proof. reflexivity. Qed.
+Lemma is_flag_ignored t : is_flag t (mk_named L_testIgnored (t_name t)) = true.
+Proof. unfold is_flag. rewrite attr_is_named. reflexivity. Qed.
+Lemma finished_named t a (r : list message) :
+  (if is_msg L_testFinished {| m_name := L_testFinished; m_attrs := (L_name, t_name t) :: a |}
+      && attr_is L_name {| m_name := L_testFinished; m_attrs := (L_name, t_name t) :: a |} (t_name t) then Some r else None) = Some r.
 Proof.
-  unfold test_msgs, take_test. cbn [app].
+  change (is_msg L_testFinished _) with true.
+  unfold attr_is, get_attr. cbn [m_attrs find fst snd]. change (bytes_eqb L_name L_name) with true. cbn [snd]. rewrite bytes_eqb_refl. reflexivity.
+Qed.
+
+(* the number of executions of its body the property demands of a selected test in one pass *)
+Definition count_run (t : test) : N := if runs ri t then 1 else 0.
+Lemma take_test_msgs t r : take_test ri t (count_run t) (test_msgs dur ri t ++ r) = Some r.
+Proof.
+  unfold test_msgs, take_test, test_failures, count_run. cbn [app].
   change (is_msg L_testStarted (mk_named L_testStarted (t_name t))) with true. rewrite attr_is_named. cbn [andb].
   rewrite <- !app_assoc.
-  destruct (t_ignored t) eqn:Ei; cbn [app].
-  - change (is_msg L_testIgnored (mk_named L_testIgnored (t_name t))) with true. rewrite attr_is_named. cbn [andb].
-    rewrite take_failures_msgs.
-    change (is_msg L_testFinished _) with true.
-    unfold attr_is, get_attr. cbn [m_attrs find fst snd]. change (bytes_eqb L_name L_name) with true. cbn [snd]. rewrite bytes_eqb_refl. reflexivity.
-  - rewrite take_failures_msgs.
-    change (is_msg L_testFinished _) with true.
-    unfold attr_is, get_attr. cbn [m_attrs find fst snd]. change (bytes_eqb L_name L_name) with true. cbn [snd]. rewrite bytes_eqb_refl. reflexivity.
+  destruct (runs ri t) eqn:Er; cbn [app].
+  - destruct (all_failures (t_body t)) as [|f fl] eqn:Ef.
+    + cbn [map app]. rewrite is_flag_finished. cbn [Bool.eqb negb andb N.eqb Pos.eqb take_failures]. apply finished_named.
+    + cbn [map app]. rewrite is_flag_failed. cbn [Bool.eqb negb andb N.eqb Pos.eqb].
+      change (failure_msg t f :: map (failure_msg t) fl ++ ?x) with (map (failure_msg t) (f :: fl) ++ x).
+      rewrite take_failures_msgs. apply finished_named.
+  - rewrite is_flag_ignored. cbn [Bool.eqb negb andb N.eqb map app take_failures]. apply finished_named.
 Qed.
-Lemma take_tests_msgs g : forall r, take_tests g (flat_map (test_msgs dur) g ++ r) = Some r.
+Definition count_sel (t : test) : N := if selected fs t && runs ri t then 1 else 0.
+Lemma take_tests_msgs g : forall cs r,
+  take_tests ri fs g (map count_sel g ++ cs) (flat_map (test_msgs dur ri) (filter (selected fs) g) ++ r) = Some (cs, r).
 Proof.
-  induction g as [|t g IH]; intro r; [reflexivity|].
-  cbn [flat_map take_tests]. rewrite <- app_assoc, take_test_msgs. apply IH.
+  induction g as [|t g IH]; intros cs r; [reflexivity|].
+  cbn [map app filter take_tests]. destruct (selected fs t) eqn:Es.
+  - replace (count_sel t) with (count_run t) by (unfold count_sel, count_run; rewrite Es; reflexivity).
+    cbn [flat_map]. rewrite <- app_assoc, take_test_msgs. apply IH.
+  - replace (count_sel t) with 0 by (unfold count_sel; rewrite Es; reflexivity). cbn [N.eqb]. apply IH.
 Qed.
-Lemma take_suite_msgs g r : take_suite fs g (suite_msgs dur fs g ++ r) = Some r.
+Lemma take_suite_msgs g cs r : take_suite ri fs g (map count_sel g ++ cs) (suite_msgs dur ri fs g ++ r) = Some (cs, r).
 Proof.
   unfold suite_msgs, take_suite. cbn [app].
   change (is_msg L_testSuiteStarted (mk_named L_testSuiteStarted (group_name g))) with true. rewrite attr_is_named. cbn [andb].
   rewrite <- app_assoc, take_tests_msgs. cbn [app].
   change (is_msg L_testSuiteFinished (mk_named L_testSuiteFinished (group_name g))) with true. rewrite attr_is_named. reflexivity.
 Qed.
-Lemma faithful_messages ts : faithful fs (segments ts) (messages_of dur fs ts) = true.
+Lemma faithful_suites gs : faithful ri fs gs (flat_map (map count_sel) gs) (flat_map (suite_msgs dur ri fs) gs) = true.
 Proof.
-  unfold messages_of. induction (segments ts) as [|g gs IH]; [reflexivity|].
+  induction gs as [|g gs IH]; [reflexivity|].
   cbn [flat_map faithful]. rewrite take_suite_msgs. exact IH.
 Qed.
-Lemma spec_messages ts : spec_msgs fs ts (messages_of dur fs ts) = true.
+Lemma faithful_messages n ts : faithful ri fs (pass_groups n ts) (exec_of ri n fs ts) (messages_of dur ri n fs ts) = true.
+Proof. apply faithful_suites. Qed.
+Lemma spec_messages n ts : spec_msgs ri n fs ts (exec_of ri n fs ts) (messages_of dur ri n fs ts) = true.
 Proof. unfold spec_msgs. rewrite balanced_messages, faithful_messages. reflexivity. Qed.
+
+(* the executions the model counts are the ones the property demands *)
+Lemma exec_count_arm t : exec_count fs (arm ri t) = count_sel t.
+Proof.
+  unfold exec_count, count_sel, runs. rewrite selected_arm. destruct ri; cbn [arm unignore t_ignored negb]; rewrite ?orb_true_r, ?orb_false_r; reflexivity.
+Qed.
+Lemma flat_map_map_concat {A B} (f : A -> B) gs : flat_map (map f) gs = map f (concat gs).
+Proof. induction gs as [|g gs IH]; [reflexivity|]. cbn [flat_map concat]. rewrite map_app, IH. reflexivity. Qed.
+Lemma exec_model n ts : passes_exec ri fs n ts = exec_of ri n fs ts.
+Proof.
+  rewrite passes_exec_times. unfold exec_of, pass_groups. fold count_sel.
+  rewrite <- times_concat, flat_map_times, flat_map_map_concat, concat_segments, map_map.
+  f_equal. apply map_ext. apply exec_count_arm.
+Qed.
 End SpecFacts.
 
 (* ================= the run against the oracle ================= *)
@@ -359,31 +501,61 @@ Proof.
   unfold noprint. rewrite forallb_forall in *. intros x Hx. specialize (H x Hx). destruct x; [discriminate H | reflexivity | reflexivity].
 Qed.
 
-Lemma run_meets_spec_text s trailer : valid s = true -> no_hash trailer = true -> spec s (run s ++ trailer) = true.
+Lemma run_meets_spec_text s trailer : valid s = true -> no_hash trailer = true -> spec s (add_text (run s) trailer) = true.
 Proof.
-  intros Hv Ht. unfold spec, run. rewrite (stream (s_dur s) (s_filters s) (s_tests s) trailer (valid_noprint s Hv) Ht). apply spec_messages.
+  intros Hv Ht. unfold spec, run, add_text, run_exec. cbn [o_stream o_exec].
+  rewrite (stream (s_dur s) (s_filters s) (s_ri s) (s_passes s) (s_tests s) trailer (valid_noprint s Hv) Ht), exec_model. apply spec_messages.
 Qed.
+Lemma add_text_nil o : add_text o [] = o.
+Proof. destruct o as [st ex]. unfold add_text. cbn [o_stream o_exec]. rewrite app_nil_r. reflexivity. Qed.
 Lemma run_meets_spec s : valid s = true -> spec s (run s) = true.
-Proof. intro Hv. rewrite <- (app_nil_r (run s)). apply run_meets_spec_text; [exact Hv | reflexivity]. Qed.
+Proof. intro Hv. rewrite <- (add_text_nil (run s)). apply run_meets_spec_text; [exact Hv | reflexivity]. Qed.
+
+(* ================= run-ignored: the registry behaves as the same registry without its ignored markers ================= *)
+Lemma run_ignored_events fs n ts : passes_events true fs n ts = passes_events false fs n (map unignore ts).
+Proof. rewrite !passes_events_times, arm_false_map. reflexivity. Qed.
+Lemma run_ignored_exec fs n ts : passes_exec true fs n ts = passes_exec false fs n (map unignore ts).
+Proof. rewrite !passes_exec_times, arm_false_map. reflexivity. Qed.
+Lemma run_ignored_as_unignored dur n fs ts :
+  run {| s_dur := dur; s_ri := true; s_passes := n; s_filters := fs; s_tests := ts |}
+  = run {| s_dur := dur; s_ri := false; s_passes := n; s_filters := fs; s_tests := map unignore ts |}.
+Proof.
+  unfold run, run_exec, render_tc, render_with. cbn [s_dur s_ri s_passes s_filters s_tests].
+  rewrite run_ignored_events, run_ignored_exec. reflexivity.
+Qed.
+(* ... and so no test is flagged and every selected test's body is executed in every pass *)
+Lemma run_ignored_no_flag dur n fs ts :
+  forallb (fun m => negb (is_msg L_testIgnored m)) (messages_of dur true n fs ts) = true.
+Proof.
+  unfold messages_of. induction (pass_groups n ts) as [|g gs IH]; [reflexivity|].
+  cbn [flat_map]. rewrite forallb_app, IH, andb_true_r. unfold suite_msgs. cbn [forallb]. rewrite forallb_app. cbn [forallb].
+  change (negb (is_msg L_testIgnored (mk_named L_testSuiteStarted _))) with true.
+  change (negb (is_msg L_testIgnored (mk_named L_testSuiteFinished _))) with true. cbn [andb]. rewrite andb_true_r.
+  induction (filter (selected fs) g) as [|t l IHl]; [reflexivity|].
+  cbn [flat_map]. rewrite forallb_app, IHl, andb_true_r. unfold test_msgs, test_failures, runs. rewrite orb_true_r. cbn [app forallb].
+  change (negb (is_msg L_testIgnored (mk_named L_testStarted _))) with true. cbn [andb]. rewrite forallb_app. cbn [forallb].
+  change (negb (is_msg L_testIgnored {| m_name := L_testFinished; m_attrs := _ |})) with true. cbn [andb]. rewrite andb_true_r.
+  induction (all_failures (t_body t)) as [|[[f ln] m] fl IHf]; [reflexivity|]. cbn [map forallb]. rewrite IHf. reflexivity.
+Qed.
 
 (* ================= the code before the two repairs of D15 ================= *)
 (* (1) a failure reported from another file: the test's own path went into the message value unescaped *)
 Definition old_path_witness : scenario :=
-  {| s_dur := 0; s_filters := []; s_tests := [ {| t_group := B "G"%string; t_name := B "t"%string; t_file := B "it's.cpp"%string; t_line := 10; t_ignored := false;
+  {| s_dur := 0; s_ri := false; s_passes := 1; s_filters := []; s_tests := [ {| t_group := B "G"%string; t_name := B "t"%string; t_file := B "it's.cpp"%string; t_line := 10; t_ignored := false;
                                  t_body := [SFail (B "helper.cpp"%string) 3 (B "boom"%string)] |} ] |}.
 Lemma run_old_path_refuted : ~ (forall s, valid s = true -> spec s (run_old_path s) = true).
 Proof. intro H. specialize (H old_path_witness eq_refl). vm_compute in H. discriminate H. Qed.
 (* (2) a group with the empty name: suite started, never finished *)
 Definition old_group_witness : scenario :=
-  {| s_dur := 0; s_filters := []; s_tests := [ {| t_group := []; t_name := B "t"%string; t_file := B "a.cpp"%string; t_line := 10; t_ignored := false; t_body := [] |} ] |}.
+  {| s_dur := 0; s_ri := false; s_passes := 1; s_filters := []; s_tests := [ {| t_group := []; t_name := B "t"%string; t_file := B "a.cpp"%string; t_line := 10; t_ignored := false; t_body := [] |} ] |}.
 Lemma run_old_group_refuted : ~ (forall s, valid s = true -> spec s (run_old_group s) = true).
 Proof. intro H. specialize (H old_group_witness eq_refl). vm_compute in H. discriminate H. Qed.
 (* the old writer's stream for (2) does parse; it is the balance that fails *)
 Lemma run_old_group_unbalanced :
-  match tc_parse (run_old_group old_group_witness) with Some ms => balanced ms = false | None => False end.
+  match tc_parse (o_stream (run_old_group old_group_witness)) with Some ms => balanced ms = false | None => False end.
 Proof. vm_compute. reflexivity. Qed.
 (* the old writer's stream for (1) is cut by the raw quote: the parser rejects it *)
-Lemma run_old_path_rejected : tc_parse (run_old_path old_path_witness) = None.
+Lemma run_old_path_rejected : tc_parse (o_stream (run_old_path old_path_witness)) = None.
 Proof. vm_compute. reflexivity. Qed.
 
 (* ================= example ================= *)
@@ -398,29 +570,73 @@ Definition ex_test3 : test :=
 Definition ex_test4 : test :=
   {| t_group := (B "H"%string); t_name := (B "filtered out"%string); t_file := (B "a.cpp"%string); t_line := 40; t_ignored := false; t_body := [] |}.
 Definition example_run : scenario :=
-  {| s_dur := 42; s_filters := [B "t[1]"%string; B "ign"%string; []]; s_tests := [ex_test1; ex_test2; ex_test3; ex_test4] |}.
+  {| s_dur := 42; s_ri := false; s_passes := 1; s_filters := [B "t[1]"%string; B "ign"%string; []]; s_tests := [ex_test1; ex_test2; ex_test3; ex_test4] |}.
 
 Lemma example_valid :
-  valid example_run = true /\ length (messages_of 42 (s_filters example_run) (s_tests example_run)) = 16%nat /\ spec example_run (run example_run) = true
-  /\ tc_parse (run example_run) = Some (messages_of 42 (s_filters example_run) (s_tests example_run)).
+  valid example_run = true /\ length (messages_of 42 false 1 (s_filters example_run) (s_tests example_run)) = 16%nat /\ spec example_run (run example_run) = true
+  /\ tc_parse (o_stream (run example_run)) = Some (messages_of 42 false 1 (s_filters example_run) (s_tests example_run)).
+Proof. vm_compute. repeat split; reflexivity. Qed.
+
+(* run-ignored, two passes: an ignored test whose body fails is started, not flagged, executed and reported failed in both passes; without
+   -ri the same registry flags it, does not execute it and reports no failure; an observation in which the test is flagged although
+   its body was executed (the run options applied after the start notification) is rejected *)
+Definition ex_test5 : test :=
+  {| t_group := (B "G'1"%string); t_name := (B "ign"%string); t_file := (B "a.cpp"%string); t_line := 20; t_ignored := true;
+     t_body := [SFail (B "a.cpp"%string) 21 (B "boom"%string)] |}.
+Definition example_ri : scenario := {| s_dur := 5; s_ri := true; s_passes := 2; s_filters := []; s_tests := [ex_test5; ex_test3] |}.
+Definition example_no_ri : scenario := {| s_dur := 5; s_ri := false; s_passes := 2; s_filters := []; s_tests := [ex_test5; ex_test3] |}.
+Definition late_options_obs : obs :=
+  {| o_stream := o_stream (run example_no_ri); o_exec := o_exec (run example_ri) |}.
+Lemma example_ri_valid :
+  valid example_ri = true /\ spec example_ri (run example_ri) = true /\ o_exec (run example_ri) = [1; 1; 1; 1]
+  /\ length (filter (is_msg L_testFailed) (messages_of 5 true 2 [] (s_tests example_ri))) = 2%nat
+  /\ spec example_no_ri (run example_no_ri) = true /\ o_exec (run example_no_ri) = [0; 1; 0; 1]
+  /\ spec example_ri (run example_no_ri) = false /\ spec example_no_ri (run example_ri) = false
+  /\ spec example_ri late_options_obs = false /\ spec example_no_ri late_options_obs = false.
 Proof. vm_compute. repeat split; reflexivity. Qed.
 
 (* what spec = true says, spelled out *)
 Lemma spec_reads s o : spec s o = true <->
-  exists ms, tc_parse o = Some ms /\ balanced ms = true /\ faithful (s_filters s) (segments (s_tests s)) ms = true.
+  exists ms, tc_parse (o_stream o) = Some ms /\ balanced ms = true
+             /\ faithful (s_ri s) (s_filters s) (pass_groups (s_passes s) (s_tests s)) (o_exec o) ms = true.
 Proof.
   unfold spec, spec_msgs. split.
-  - destruct (tc_parse o) as [ms|]; [|discriminate]. intro H. apply andb_true_iff in H. exists ms. tauto.
+  - destruct (tc_parse (o_stream o)) as [ms|]; [|discriminate]. intro H. apply andb_true_iff in H. exists ms. tauto.
   - intros [ms [E [Hb Hf]]]. rewrite E, Hb, Hf. reflexivity.
+Qed.
+(* what faithful says about one test: the flag is there iff the test is ignored and not run; a flagged test's body was not executed
+   and no testFailed follows; an unflagged test's body was executed exactly once *)
+Lemma take_test_reads ri t c ms r : take_test ri t c ms = Some r ->
+  exists m rest, ms = m :: rest /\ is_msg L_testStarted m = true /\
+    ((runs ri t = false /\ c = 0 /\ exists i e, rest = i :: e :: r /\ is_flag t i = true /\ is_msg L_testFinished e = true)
+     \/ (runs ri t = true /\ c = 1 /\ (match rest with i :: _ => is_flag t i | [] => false end) = false)).
+Proof.
+  unfold take_test. destruct ms as [|m rest]; [discriminate|].
+  destruct (is_msg L_testStarted m && attr_is L_name m (t_name t)) eqn:Es; [|discriminate].
+  apply andb_true_iff in Es. destruct Es as [Es _]. intro H. exists m, rest. split; [reflexivity|]. split; [exact Es|].
+  destruct rest as [|i rest'].
+  - right. destruct (runs ri t); cbn [negb Bool.eqb andb] in H; [|discriminate].
+    destruct (c =? 1) eqn:Ec; [|discriminate]. apply N.eqb_eq in Ec. auto.
+  - destruct (is_flag t i) eqn:Ei.
+    + left. destruct (runs ri t); cbn [negb Bool.eqb andb] in H; [discriminate|].
+      destruct (c =? 0) eqn:Ec; [|discriminate]. apply N.eqb_eq in Ec. cbn [take_failures] in H.
+      destruct rest' as [|e r2]; [discriminate|].
+      destruct (is_msg L_testFinished e && attr_is L_name e (t_name t)) eqn:Ee; [|discriminate].
+      apply andb_true_iff in Ee. destruct Ee as [Ee _]. injection H as <-.
+      split; [reflexivity|]. split; [exact Ec|]. exists i, e. auto.
+    + right. destruct (runs ri t); cbn [negb Bool.eqb andb] in H; [|discriminate].
+      destruct (c =? 1) eqn:Ec; [|discriminate]. apply N.eqb_eq in Ec. auto.
 Qed.
 Lemma escape_roundtrip s : tc_unescape (tc_escape s) = Some s /\ no_raw_special (tc_escape s) = true.
 Proof. split; [apply unescape_escape | apply escape_no_raw_special]. Qed.
 
-(* without filters the loop is the one C16 uses *)
-Lemma reg_loop_nofilter gs ts : reg_loop_sel [] gs ts = reg_loop gs ts.
+(* without filters and run options the loop is the one C16 uses *)
+Lemma reg_loop_nofilter gs ts : reg_loop_sel false [] gs ts = reg_loop gs ts.
 Proof.
   revert gs. induction ts as [|t rest IH]; intro gs; [reflexivity|].
-  cbn [reg_loop_sel reg_loop]. unfold sel_events. cbn [selected]. rewrite !IH. reflexivity.
+  cbn [reg_loop_sel reg_loop arm]. unfold sel_events. cbn [selected]. rewrite !IH. reflexivity.
 Qed.
-Lemma events_nofilter ts : events_sel [] ts = events_of ts.
+Lemma events_nofilter ts : events_sel false [] ts = events_of ts.
 Proof. apply reg_loop_nofilter. Qed.
+Lemma reg_loop_segments_no_ri fs ts : events_sel false fs ts = flat_map (seg_events fs) (segments ts).
+Proof. apply reg_loop_segments_plain. Qed.
